@@ -364,6 +364,8 @@ type vPushMon struct {
 	mixed     bool
 	unknown   bool
 	disorder  bool
+	got       []*auparse.AuditMessage // delivered messages and the push each one belongs to
+	gotIdx    []int
 }
 
 func (m *vPushMon) ReassemblyComplete(g []*auparse.AuditMessage) {
@@ -383,6 +385,8 @@ func (m *vPushMon) ReassemblyComplete(g []*auparse.AuditMessage) {
 			continue
 		}
 		m.delivered[found]++
+		m.got = append(m.got, x)
+		m.gotIdx = append(m.gotIdx, found)
 		if found < last {
 			m.disorder = true
 		}
@@ -440,4 +444,9 @@ func VH_ReassemblerPush() {
 	vAssert(!m.mixed, "C01/mixed-sequence-in-group")
 	vAssert(!m.unknown, "C01/delivered-something-not-pushed")
 	vAssert(!m.disorder, "C01/group-is-not-exactly-the-pushed-records-in-order")
+	// what was delivered is still the text that was pushed (Push copies; the caller's buffer has
+	// been reused and overwritten since)
+	for i, x := range m.got {
+		vAssert(x.RawData == m.texts[m.gotIdx[i]], "C01/delivered-record-text-changed-later")
+	}
 }
